@@ -197,7 +197,7 @@ def run(chk, drv):
     chk.extra["rule"] = ("random schemas with oneof groups (members of every kind); histories of length ≤ 12 (thorough ≤ 40) over construct (≤ 1 member per group), setattr "
                          "(incl. default values), getattr, parse of bytes with 0..n members in any order, instance from_dict, copy, deepcopy, pickle, observers; after EVERY operation "
                          "the presence-level observation and bytes are compared with the model and the exclusivity oracle runs — on the current object AND on every object a copy was taken from earlier in the history. non-trivial = history touches a oneof member; distinct by (schema, history)")
-    nh = 800 if quick else 6000
+    nh = 800 if quick else 2500
     maxlen = 12 if quick else 40
     for hi in range(nh):
         if hi % 5 == 0:
